@@ -6,6 +6,7 @@ import (
 	"go/types"
 	"os"
 	"strings"
+	"sync"
 	"unicode/utf8"
 
 	"golang.org/x/tools/go/ssa"
@@ -13,8 +14,11 @@ import (
 )
 
 var srcCache = map[string][]string{}
+var srcMu sync.Mutex
 
 func (e *Exec) srcLines(file string) []string {
+	srcMu.Lock()
+	defer srcMu.Unlock()
 	if l, ok := srcCache[file]; ok {
 		return l
 	}
